@@ -1,7 +1,7 @@
 /-
   Model of the server front end:
     crates/resolved/src/main.rs          triage, resolve_and_build_response, handle_raw_message,
-                                         the reply paths of listen_udp_task / listen_tcp_task, reload_task
+                                         serialise_response, the reply paths of listen_udp_task / listen_tcp_task, reload_task
     crates/dns-types/src/protocol/types.rs   Message::make_response, make_format_error_response
     crates/dns-resolver/src/util/net.rs  send_udp_bytes_to, send_tcp_bytes, read_tcp_bytes
     crates/resolved/src/fs.rs            load_zone_configuration (pure part)
@@ -96,14 +96,30 @@ def tcpFrame (bytes : List UInt8) : Option (List UInt8) :=
   else if bytes.length ≤ 65535 then some (u16Bytes bytes.length ++ setTcBit bytes false)
   else some (u16Bytes 65535 ++ (setTcBit bytes true).take 65535)
 
+/-- the SERVFAIL fallback of `serialise_response`: same header and question, no records. -/
+def servfailFallback (m : Message) : Message :=
+  { m with answers := [], authority := [], additional := []
+           header := { m.header with rcode := RCODE_SERVFAIL, isAuthoritative := false } }
+
+/-- `serialise_response`: the message that goes out with its octets.  A response that cannot be
+    serialised (a counter that does not fit 16 bits) is replaced by its SERVFAIL fallback; `none`
+    only if even that cannot be serialised. -/
+def serialiseResponse (m : Message) : Option (Message × List UInt8) :=
+  match encodeMessage m with
+  | .ok bs => some (m, bs)
+  | .error _ =>
+    match encodeMessage (servfailFallback m) with
+    | .ok bs => some (servfailFallback m, bs)
+    | .error _ => none
+
 /-- the UDP reply path: handle, serialise, frame.  `none` = nothing is sent. -/
 def serveUdp (authoritativeOnly : Bool) (resolver : ServerResolver) (datagram : List UInt8) : Option (List UInt8) :=
   match handleRawMessage authoritativeOnly resolver datagram with
   | none => none
   | some m =>
-    match encodeMessage m with
-    | .ok bs => udpFrame bs
-    | .error _ => none
+    match serialiseResponse m with
+    | some (_, bs) => udpFrame bs
+    | none => none
 
 /-- `read_tcp_bytes` on a stream that delivers `received` (everything after the 2-octet prefix
     announcing `expected`) and then ends: the message, or the ID for the FORMERR. -/
@@ -124,9 +140,9 @@ def serveTcp (authoritativeOnly : Bool) (resolver : ServerResolver) (expected : 
   match response with
   | none => none
   | some m =>
-    match encodeMessage m with
-    | .ok bs => tcpFrame bs
-    | .error _ => none
+    match serialiseResponse m with
+    | some (_, bs) => tcpFrame bs
+    | none => none
 
 /-! ## Configuration loading and reload (C12 / C19) -/
 
